@@ -83,8 +83,8 @@ type gen struct {
 	r *rand.Rand
 }
 
-func (g *gen) n(k int) int          { return g.r.IntN(k) }
-func (g *gen) chance(p int) bool    { return g.r.IntN(100) < p }
+func (g *gen) n(k int) int             { return g.r.IntN(k) }
+func (g *gen) chance(p int) bool       { return g.r.IntN(100) < p }
 func (g *gen) pickS(s []string) string { return s[g.r.IntN(len(s))] }
 func (g *gen) bytes(n int) []byte {
 	b := make([]byte, n)
